@@ -643,8 +643,9 @@ def E_pip(rng, tier):
             pts[:, 0] = 0.5
             pts[:, 1] = 0.5
             sq = np.array([[0., 0.], [1., 0.], [1., 1.], [0., 1.]])
-            gutils.points_inside_polygon(pts, sq, nprint=5_000_000)
-        yield "many-points|npt=21.6e6|nprint=5e6", many_points
+            # (a progress line falls on point 21 500 000 > INT_MAX / 100)
+            gutils.points_inside_polygon(pts, sq, nprint=2_150_000)
+        yield "many-points|npt=21.6e6|nprint=2.15e6", many_points
 
 
 def _catch(codes):
